@@ -153,6 +153,9 @@ def replace(from_: "ResolvedPos", to: "ResolvedPos", slice: Slice) -> "Node":
     if from_.pos > to.pos:
         msg = "The end of the replaced range lies before its start"
         raise ReplaceError(msg)
+    if not slice.content.size and (slice.open_start or slice.open_end):
+        msg = "Slice open depths exceed the depth of its content"
+        raise ReplaceError(msg)
     return replace_outer(from_, to, slice, 0)
 
 
